@@ -6,6 +6,7 @@ import (
 	"bytes"
 	"fmt"
 	"io"
+	"strings"
 
 	"github.com/whawty/auth/zzverif/simrt"
 )
@@ -249,6 +250,55 @@ func propC13(r *Run) {
 		}
 		if fmt.Sprint(gerr == nil)+got.Message != base.Message || (gerr == nil && got.Result != base.Result) {
 			r.Fail("decode/response-fragmentation", "response bytes %x decode differently under read schedule %v", raw, sr.sched)
+		}
+	}
+	// the PAM module's encoder writes the same bytes as the Go encoder for the same fields
+	if r.Choose("pam-clause", 8) == 0 {
+		var cases []string
+		var wants [][]byte
+		for k := 0; k < 6; k++ {
+			ul, pl := lenPool[r.Choose("pam-ulen", 8)], lenPool[r.Choose("pam-plen", 8)]
+			mk := func(n int, tag uint64) string { // C strings: no NUL bytes
+				b := []byte(seededBytes(tag, n))
+				for i := range b {
+					if b[i] == 0 {
+						b[i] = 0x80
+					}
+				}
+				return string(b)
+			}
+			u, p := mk(ul, uint64(k+1)), mk(pl, uint64(k+100))
+			cu, cp := u, p
+			if len(cu) > 256 {
+				cu = cu[:256]
+			}
+			if len(cp) > 256 {
+				cp = cp[:256]
+			}
+			want, err := (&Request{cu, cp, "", ""}).Marshal()
+			if err != nil {
+				r.Fail("encode/format", "Marshal of clipped fields failed: %v", err)
+			}
+			cases = append(cases, "E "+hexs([]byte(u))+" "+hexs([]byte(p)))
+			wants = append(wants, want)
+		}
+		ans, err := pamBatch(cases)
+		if err != nil {
+			r.Fail("harness/pamsim", "%v", err)
+		}
+		if ans == nil {
+			r.Count("pam-clause-skipped")
+		}
+		for i, a := range ans {
+			f := strings.Fields(a)
+			got := ""
+			if len(f) > 1 {
+				got = f[1]
+			}
+			if got != hexs(wants[i]) {
+				r.Fail("encode/pam-differs", "PAM module writes %s, Go encoder %s for case %s", got, hexs(wants[i]), cases[i])
+			}
+			r.Count("requests-compared-with-pam-module")
 		}
 	}
 	r.Steps += nsched + 5
